@@ -82,6 +82,13 @@ def mk_pos(vals):
   return c
 
 
+def _mk_dcsub(vals):
+  # the base dataclass has been configured and materialized before
+  materialize.materialize_defaults(fdl.Config(N.DCBase))
+  return fdl.Config(N.DCSub, **{
+      n: x for n, x in zip(('b', 'c'), vals) if x is not shapes.UNSET})
+
+
 def _tv_reset(vals):
   # a TaggedValue that had a value which was then reset to NO_VALUE
   tv = N.TagA.new('had-a-value')
@@ -108,6 +115,13 @@ def kinds():
       'tv': K('tv', 1, True, lambda v: (N.TagA.new() if v[0] is shapes.UNSET
                                         else N.TagA.new(v[0])), True),
       'tvnv': K('tvnv', 0, False, _tv_reset, True),
+      'csent': K('csent', 2, True, mk(fdl.Config, N.sentinel_fn), True),
+      'cnest': K('cnest', 1, True, lambda v: fdl.Config(
+          N.nested_default_fn, x=N.NESTED_EQUAL, **(
+              {} if v[0] is shapes.UNSET else {'y': v[0]})), True),
+      'dcbase': K('dcbase', 2, True, lambda v: fdl.Config(N.DCBase, **{
+          n: x for n, x in zip(('a', 'b'), v) if x is not shapes.UNSET}), True),
+      'dcsub': K('dcsub', 2, True, _mk_dcsub, True),
   }
 
 
@@ -129,6 +143,7 @@ def bounds(tier):
         [['mut2', 'list2', 'tv'], 3, 1],
         [['tmp', 'cfg', 'list2'], 3, 1],
         [['cfg', 'list2', 'tvnv', 'tv'], 3, 1],
+        [['csent', 'cnest', 'dcbase', 'dcsub', 'list2'], 2, 2],
     ], dc_depth=2)
   return dict(families=[
       [FULL + ['dict1', 'parkw'], 2, 3],
@@ -137,6 +152,7 @@ def bounds(tier):
       [['cfg', 'mut', 'par', 'list2'], 3, 3],
       [['tmp', 'cfg', 'par', 'list2'], 3, 2],
       [['cfg', 'list2', 'tvnv', 'tv'], 3, 2],
+      [['csent', 'cnest', 'dcbase', 'dcsub', 'list2', 'cfg'], 3, 2],
   ], dc_depth=3)
 
 
